@@ -487,10 +487,52 @@ def conjuncts(n, polarity=True):
     return [(n, polarity)]
 
 
+def _fields_read(fn, e, depth=0):
+    out = set()
+    for x in walk(e):
+        f = field_name(x)
+        if f:
+            out.add(f)
+        h = expr_helper(x) if depth < 2 else None
+        if h is not None:
+            out |= _fields_read(h[0], h[1], depth + 1)
+        elif x['k'] == 'call' and 'opc' not in x and x.get('usr') and depth < 2 and FX is not None and FX.by_usr(x['usr']) and x.get('callee', '').startswith('sim::'):
+            out.add('*')      # an opaque repository call: unknown reads
+    return out
+
+
 def _defined_before_guard(fn, ref, blk):
-    """The operands of a const local's definition must not change between its definition and the branch: accepted
-    when the definition contains no local that is reassigned anywhere (fields may change - conservative callers
-    treat field-based guards as evaluated at the definition)."""
+    """A const bool local may stand for its definition at the branch only if nothing its definition reads can have
+    changed between the definition and the branch."""
+    did = ref.get('did')
+    defs = local_defs(fn, did)
+    if len(defs) != 1:
+        return False
+    site, e = defs[0]
+    reads = _fields_read(fn, e)
+    if '*' in reads:
+        return False
+    cfg = fn.cfg
+    db = cfg.node_block(site)
+    if db is None:
+        return False
+    if not reads:
+        return True
+    for a in field_accesses(fn, reads):
+        if not a.is_write:
+            continue
+        wb = cfg.node_block(a.site)
+        if wb is None:
+            continue
+        between = (wb == db and (cfg.node_pos(a.site) or (0, 0))[1] > (cfg.node_pos(site) or (0, 0))[1]) or (wb != db and cfg._reaches(db, wb))
+        if between and (wb == blk or cfg._reaches(wb, blk)):
+            return False
+    # calls to other member functions between the two may write too: be conservative
+    for c in fn.calls():
+        if c['k'] == 'call' and 'opc' not in c and (c.get('obj') is None or _is_this_like(c.get('obj'))) and c.get('usr') and FX is not None and FX.by_usr(c['usr']) and expr_helper(c) is None:
+            cb = cfg.node_block(c)
+            if cb is not None and cb != db and cfg._reaches(db, cb) and (cb == blk or cfg._reaches(cb, blk)):
+                return False
     return True
 
 
@@ -830,3 +872,79 @@ def nonempty_test(fn, atom, pol, container):
         op = c[0] if pol else NEG[c[0]]
         return (op == '>' and k == 0) or (op == '!=' and k == 0) or (op == '>=' and k == 1)
     return None
+
+
+# ---------------------------------------------------------------------------
+# helper-aware site search and flattened call sequences
+def is_helper_call(fn, c):
+    """A direct call (on this object or a free function) to a repository function with a body: candidate for
+    summarising/inlining when a rule looks for something the caller used to do itself."""
+    if FX is None or not is_node(c) or c['k'] != 'call' or not c.get('usr') or 'opc' in c:
+        return None
+    if c.get('obj') is not None and not _is_this_like(c['obj']):
+        return None
+    gs = [g for g in FX.by_usr(c['usr']) if g.cfg is not None]
+    if not gs or gs[0].d.get('virtual'):
+        return None
+    return gs[0]
+
+
+def sites(fn, pred, depth=2, _seen=()):
+    """Anchors in fn at which `pred` happens: nodes n with pred(fn, n), plus calls to helpers inside which pred
+    happens on EVERY normal path (so the call can stand for the event in must-precede / must-follow rules)."""
+    out = [n for n in fn.all_nodes() if pred(fn, n)]
+    if depth <= 0:
+        return out
+    for c in fn.calls():
+        g = is_helper_call(fn, c)
+        if g is None or g.usr == fn.usr or g.usr in _seen:
+            continue
+        inner = sites(g, pred, depth - 1, _seen + (fn.usr,))
+        if inner and on_all_paths(g, inner):
+            out.append(c)
+    return out
+
+
+def sites_any(fn, pred, depth=2, _seen=()):
+    """Like sites() but a helper counts if pred happens on SOME path inside it (for may-rules)."""
+    out = [n for n in fn.all_nodes() if pred(fn, n)]
+    if depth <= 0:
+        return out
+    for c in fn.calls():
+        g = is_helper_call(fn, c)
+        if g is None or g.usr == fn.usr or g.usr in _seen:
+            continue
+        if sites_any(g, pred, depth - 1, _seen + (fn.usr,)):
+            out.append(c)
+    return out
+
+
+def flat_calls(fn, pred, depth=2, _seen=()):
+    """Calls satisfying pred in source order, with calls to repository helpers replaced by the helper's own matching
+    calls (straight-line helpers only contribute in order). Returns [(owner Func, call node)]."""
+    out = []
+    for c in fn.calls():
+        if pred(fn, c):
+            out.append((fn, c))
+            continue
+        g = is_helper_call(fn, c)
+        if g is not None and depth > 0 and g.usr != fn.usr and g.usr not in _seen:
+            out.extend(flat_calls(g, pred, depth - 1, _seen + (fn.usr,)))
+    return out
+
+
+def completion_targets(fn, closure):
+    """Member functions a completion closure ends up calling: &C::f bound with std::bind/bind_handler, or a lambda
+    whose body consists of one call to a member function. Returns a list of usrs."""
+    out = []
+    for x in walk(closure):
+        if x['k'] == 'un' and x['op'] == '&' and is_node(x['e']) and x['e'].get('dk') == 'func':
+            out.append(x['e']['usr'])
+        if x['k'] == 'lambda' and FX is not None:
+            for lf in FX.by_usr(x['fn']):
+                calls = [c for c in lf.calls() if c['k'] == 'call' and c.get('usr') and 'opc' not in c and FX.by_usr(c['usr'])]
+                stmts = lf.body.get('ch', []) if lf.body and lf.body.get('k') == 'compound' else []
+                if len(stmts) == 1 and len(calls) >= 1:
+                    out.append(calls[0]['usr'])
+                break
+    return out
